@@ -1219,7 +1219,12 @@ class Gen:
     def rj_replace_with_attach_fails(self) -> dict[str, Any] | None:
         """The replacement is a detached tree whose own attach fails (contains a child attached elsewhere)."""
         r = self.r("rj11")
-        ref = self.pick_ref(lambda o: not o.detached, root_bias=0.5)
+        if r.random() < 0.35:
+            # a DETACHED receiver (free detached subtree, or a stale node kept by the user)
+            names = [h for h, x in self.w.handles.items() if x.detached and id(x) not in self.w.positions()]
+            ref = {"h": r.choice(names), "path": []} if names else None
+        else:
+            ref = self.pick_ref(lambda o: not o.detached, root_bias=0.5)
         bad = self.attached_subtree_ref()
         if ref is None or bad is None:
             return None
@@ -1232,7 +1237,8 @@ class Gen:
         kids = self.fresh_children(r.choice([0, 1, 2]))
         kids.insert(r.randint(0, len(kids)), {"ref": bad})
         new = {"c": "LInner", "p": {"tag": "rwa"}, "ch": {"items": kids}, "o": "no", "create_detached": True}
-        return {"act": "replace_with", "n": ref, "new": new, "bad": "replace_with_attach_fails"}
+        state = "detached" if o.detached else "attached"
+        return {"act": "replace_with", "n": ref, "new": new, "bad": f"replace_with_attach_fails_{state}_receiver"}
 
     def rj_replace_with_own_ancestor(self) -> dict[str, Any] | None:
         """child.replace_with(its own attached root ancestor): pre-checks pass, attaching the replacement fails
@@ -1257,6 +1263,33 @@ class Gen:
         if not path:
             return None
         return {"act": "replace_with", "n": {"h": h, "path": path}, "new": {"ref": {"h": h, "path": []}}, "bad": f"replace_with_own_ancestor_depth{len(path)}"}
+
+    def rj_ctor_shared_two_depths(self) -> dict[str, Any] | None:
+        """A constructor over [shared, holder] where the detached holder still references `shared` (an attached root):
+        the arrangement is inadmissible; the library may accept it (then the run is cut) or reject it -- if it
+        rejects, nothing may have changed."""
+        r = self.r("rj15")
+        cands = []
+        for h, o in self.w.handles.items():
+            if o.detached and not self.w.is_retired(o) and self.w.is_free(o) and self.w.attachable(o):
+                kids = [c for _f, _i, c in children_of(o) if c.is_attached_root]
+                if kids:
+                    cands.append(h)
+        if not cands:
+            return None
+        h = r.choice(cands)
+        holder = self.w.handles[h]
+        choices = [(f, i) for f, i, c in children_of(holder) if c.is_attached_root]
+        f, i = r.choice(choices)
+        shared = {"ref": {"h": h, "path": [[f, i]]}}
+        kids = [shared, {"ref": {"h": h, "path": []}}]
+        if r.random() < 0.5:
+            kids.insert(r.randint(0, 2), self.fresh_children(1)[0])
+        if r.random() < 0.5:
+            spec = {"c": "LInner", "p": {"tag": "sh"}, "ch": {"one": kids[0], "items": kids[1:]}, "o": "no"}
+        else:
+            spec = {"c": "LInner", "p": {"tag": "sh"}, "ch": {"items": kids}, "o": "no"}
+        return {"act": "new", "spec": spec, "bad": "ctor_shared_two_depths"}
 
     def rj_transform_result_refused(self) -> dict[str, Any] | None:
         """transform() of an attached subtree whose result the final replace_with refuses: wrong type for a
@@ -1334,6 +1367,7 @@ REJECT_KINDS = [
     "replace_with_none_required",
     "replace_with_attach_fails",
     "replace_with_own_ancestor",
+    "ctor_shared_two_depths",
     "transform_result_refused",
     "transform_raises",
 ]
